@@ -40,7 +40,7 @@ def tiling_failures(sa, key):
         for p in objs[i + 1:]:
             if all(min(o.end[k], p.end[k]) - max(o.start[k], p.start[k]) > 0 for k in range(d)):
                 out.append(fail("leaves_overlap", "%r-%r and %r-%r" % (list(o.start), list(o.end), list(p.start), list(p.end)), key))
-    if abs(vol - float(np.prod(b - a))) > 1e-12 * float(np.prod(b - a)):
+    if not (abs(vol - float(np.prod(b - a))) <= 1e-12 * float(np.prod(b - a))):
         out.append(fail("volume_sum", "leaf volumes sum to %r, domain %r" % (vol, float(np.prod(b - a))), key))
     return out
 
